@@ -7,7 +7,7 @@ from . import manifests as M
 
 PID = 'C05'
 PINS = C.load_pins('C05')
-PROOF_FILES = ['Proofs/CstProofs.v', 'Proofs/JsonWalkProofs.v', 'Proofs/TomlWalkProofs.v', 'Proofs/PyWalkProofs.v', 'Proofs/YamlWalkProofs.v', 'Proofs/GhaWalkProofs.v', 'Proofs/GhaLocProofs.v', 'Proofs/GoModProofs.v', 'Proofs/ParserPins.v', 'Props/C05.v']
+PROOF_FILES = ['Proofs/CstProofs.v', 'Proofs/JsonWalkProofs.v', 'Proofs/TomlWalkProofs.v', 'Proofs/PyWalkProofs.v', 'Proofs/YamlWalkProofs.v', 'Proofs/GhaWalkProofs.v', 'Proofs/GhaLocProofs.v', 'Proofs/PyLocProofs.v', 'Proofs/TotalProofs.v', 'Proofs/GoModProofs.v', 'Proofs/ParserPins.v', 'Props/C05.v']
 CLASS_FINDING = {
     'utf16': 'C05-byte-columns-sent-as-utf16',
     'gha-quoted-uses': 'C05-quoted-uses-range-shifted',
@@ -156,6 +156,29 @@ def run(tier, seed):
             rep.broke('a workflow inside the hypotheses of C05_github_actions_covers_ref has a location that is neither exact nor in the quoted class (contradicts the theorem: the oracle or the build is inconsistent)', {'count': gc[6]})
         rep.cov['streams']['gha_location_theorem'] = {'trees': len(gt), 'all_ranges_exact': len(gt) - len(gbad), 'some_range_in_quoted_class': gc.get(7, 0),
                                                       'outside_hypotheses': gc.get(8, 0), 'no_denotation': gc.get(4, 0)}
+    # C05_pyproject_structural on real trees (well-formed and damaged documents): hypotheses (sliceable nodes, quoted string
+    # tokens, pep508_rs answers sane in the sense of pep_sane_at) and conclusion evaluated in Coq on the model's walk
+    if proofs_ok and outs:
+        pt = []
+        for (f, t), o in zip(pairs + mal, outs):
+            if f != 'pyproject_toml' or not isinstance(o['out']['pkgs'], list) or o['out'].get('cst') is None or len(t.encode()) > 4000:
+                continue
+            tape_e = o['out'].get('pep508', [])
+            if any(a == 'panic' for _, a in tape_e):
+                continue
+            tape = C.g_list([C.g_pair(C.g_bytes(s_), ('None' if (a == 'err' or a.get('url')) else f"(Some ({C.g_bytes(a['name'])}, {C.g_bytes(M.norm_pep_spec(a['spec']))}))")) for s_, a in tape_e])
+            pt.append(f"({C.g_bytes(t)}, {P.g_node(o['out']['cst'])}, {tape})")
+        pt = pt[:(150 if tier == 'quick' else 3000)]
+        pbad, perrs = C.coq_eval_verdicts(PID, 'pyloc', 'From Coq Require Import ZArith.\nFrom VL Require Import Lib.Bytes Lib.Cst Run.ManifestOracle.\n',
+                                          'bytes * node * list (bytes * option (bytes * bytes))', pt, 'py_loc_oracle')
+        for e in perrs:
+            rep.broke('evaluation of py_loc_oracle failed', e)
+        pc = collections.Counter(pbad.values())
+        if pc.get(6):
+            rep.broke('a pyproject tree inside the hypotheses of C05_pyproject_structural has an unsound location (contradicts the theorem: the oracle or the build is inconsistent)', {'count': pc[6]})
+        if pc.get(9):
+            rep.broke('an answer of pep508_rs contradicts the assumption pep_sane_at of C05_pyproject_structural (the trusted statement about the library is wrong)', {'count': pc[9]})
+        rep.cov['streams']['pyproject_location_theorem'] = {'trees': len(pt), 'hypotheses_and_conclusion_hold': len(pt) - len(pbad), 'outside_hypotheses': pc.get(8, 0)}
     rep.cov.update({'evaluations': len(outs), 'distinct_nontrivial': len({t for _, t in pairs + mal}),
                     'rule': 'well-formed manifests of the 7 formats under random layouts (coverage part: the reported range against the generator\'s record of where the spec text sits, UTF-16 columns) '
                             'and damaged documents (truncation at sampled prefixes, token splicing, Unicode injection, deletion, block moves; structural part); non-trivial = distinct documents'})
